@@ -292,10 +292,9 @@ func (c *Ctx) c14Errors() {
 
 func (c *Ctx) c14NilPkg() {
 	r := c.R
-	r.Rule("C14-4", "a method is called on Object.Pkg() (nil for universe types such as error) only under a dominating nil test of that value; table: function objects (a *types.Signature-typed object always has a package) and conversion targets in NewTypecast (a conversion to error is always an assignment)")
+	r.Rule("C14-4", "a method is called on Object.Pkg() (nil for universe types such as error) only under a dominating nil test of that value; table: function objects (a *types.Signature-typed object always has a package). An earlier table entry for the conversion targets in NewTypecast (\"a conversion to error is always an assignment\") was false behind a pointer (*MyErr → *error, finding F24) and was removed")
 	accepted := map[string]string{
 		"(*builder.FunctionBuilder).buildManipulator": "hook function objects are declared functions: Pkg() != nil",
-		"builder/model.NewTypecast":                   "reached only for ¬AssignableTo ∧ ConvertibleTo; every type convertible to the universe type error is assignable to it",
 	}
 	n := 0
 	for _, s := range c.Calls(func(n string) bool { return strings.HasPrefix(n, "(*go/types.Package).") }) {
